@@ -98,6 +98,7 @@ timeout: 280
 */
 /*@unit
 name: table.rem_var.cnt4
+quick: no
 define: U_REM, MEMREC_HARNESS_CNT=4, VERIF_MEMHASH_REALLOC_ELEM_T=spifmem_ptr_t, VERIF_MEMHASH_MEMMOVE_LOOP
 debug: 5
 src: mem.c
@@ -110,6 +111,7 @@ timeout: 280
 */
 /*@unit
 name: table.rem_var.cnt5
+quick: no
 define: U_REM, MEMREC_HARNESS_CNT=5, VERIF_MEMHASH_REALLOC_ELEM_T=spifmem_ptr_t, VERIF_MEMHASH_MEMMOVE_LOOP
 debug: 5
 src: mem.c
